@@ -382,6 +382,13 @@ func constructorResetsOnlyOnAbsence(c *Ctx, r *Report, rule string) {
 						bad = fmt.Sprintf("%s (the re-initialisation is on the side where the error is NOT the sentinel — success included)", c.InstrPos(ifi))
 					}
 				}
+				// errors.Is(err, sentinel): the same test; the destructive call sits on its true side
+				if ic, isIC := ifi.Cond.(*ssa.Call); isIC && callID(&ic.Call).Pkg == "errors" && callID(&ic.Call).Name == "Is" {
+					if !guardedBy(cl.Block(), ifi, true) {
+						bad = fmt.Sprintf("%s (the re-initialisation is on the side where the error is NOT the sentinel — success included)", c.InstrPos(ifi))
+					}
+					continue
+				}
 				for _, l := range condLeaves(ifi.Cond, 0) {
 					if _, isC := l.(*ssa.Const); isC {
 						continue
@@ -693,8 +700,13 @@ func validatorMeasuresBytes(c *Ctx, r *Report, rule string) {
 			n++
 			return
 		}
-		// a predicate helper of the module: what its result is computed from
+		// a predicate helper of the module: what its result is computed from (and what it is handed: `tooMany(len(m))`)
 		if g := y.Call.StaticCallee(); g != nil && modLocal(g) && depth < 3 {
+			for _, a := range y.Call.Args {
+				if ac, isAC := strip(a).(*ssa.Call); isAC && callID(&ac.Call).is("builtin", "", "len") {
+					n++
+				}
+			}
 			for _, rt := range returnsOf(g) {
 				for _, res := range rt.Results {
 					for _, l2 := range condLeaves(res, 0) {
